@@ -698,6 +698,203 @@ ROUTER_TRUSTED = [
 ]
 
 
+# ---- JSON family ----------------------------------------------------------
+
+def canon_json_bytes(bs):
+    def pairs(ps):
+        d = {}
+        dup = False
+        for k, v in ps:
+            if k in d:
+                dup = True
+            d[k] = v
+        if dup:
+            d["__DUPLICATE_KEYS__"] = True
+        return d
+    try:
+        import decimal
+        num = lambda t: "#num:" + str(decimal.Decimal(t).normalize() + 0)
+        v = json.loads(bs.decode("utf-8"), object_pairs_hook=pairs, parse_float=num, parse_int=num)
+    except Exception as e:
+        return "UNPARSEABLE(%s)" % e
+    return json.dumps(v, sort_keys=True, ensure_ascii=True)
+
+
+def canon_json_hex(h):
+    if not re.fullmatch(r"[0-9a-f]*", h or ""):
+        return h
+    return canon_json_bytes(bytes.fromhex(h))
+
+
+def canon_dump(d):
+    if d is None:
+        return None
+    d = d.replace("Nil[]", "[]").replace("NilMap", "M{}")
+    d = re.sub(r"F\(([^)]*)\)", lambda m: "F(%r)" % float(m.group(1)) if m.group(1) else "F()", d)
+    d = re.sub(r"Raw\(([0-9a-f]*|-)\)", lambda m: "Raw(%s)" % canon_json_bytes(bytes.fromhex(m.group(1)) if m.group(1) != "-" else b"null"), d)
+    return d
+
+
+def err_mentions(impl_err, key_hex):
+    m = re.match(r"Err\(([0-9a-f]*)\)$", impl_err or "")
+    if not m:
+        return False
+    try:
+        msg = bytes.fromhex(m.group(1)).decode("latin1")
+        key = bytes.fromhex(key_hex).decode("latin1") if key_hex != "-" else ""
+    except ValueError:
+        return False
+    return key != "" and key in msg
+
+
+def check_json_family(run, prop, replay=None):
+    proof_ok = run.proof_side()
+    cases, impl, model, meta = run.run_vh(["-cases", replay] if replay else None)
+    heads = {}
+    for c in cases:
+        if c[:2] in ("D ", "J "):
+            heads.setdefault(c.split(" ", 2)[1], []).append(c)
+    nbad = fam_report_bad_packages(run, meta)
+    n_eval = 0
+    corr, propm = [], []
+    distinct = set()
+    kinds = {}
+    for i, (c, im, mo) in enumerate(zip(cases, impl, model)):
+        kind = c[:1]
+        if kind not in ("E", "U") or im.startswith("SKIP"):
+            continue
+        n_eval += 1
+        ikv, mkv = parse_kv(im), parse_kv(mo)
+        f = c.split(" ")
+        ctx = [l for l in heads.get(f[1], []) if l.startswith("D ") or l.startswith("J %s %s " % (f[1], f[2]))]
+        if mo.startswith("ERROR") or "model" not in mkv:
+            corr.append((i, c, im, mo, ctx, "model failed"))
+            continue
+        iv, mv = ikv.get("impl", "?"), mkv["model"]
+        if kind == "E":
+            kinds["encode"] = kinds.get("encode", 0) + 1
+            i_ok = re.fullmatch(r"[0-9a-f]+", iv) is not None
+            m_ok = mv != "MarshalErr"
+            ij = canon_json_hex(iv) if i_ok else iv
+            mj = canon_json_hex(mv) if m_ok else mv
+            iback, mback = canon_dump(ikv.get("back")), canon_dump(mkv.get("back"))
+            orig = canon_dump(f[3])
+            if i_ok:
+                distinct.add(hashlib.sha256((c + ij).encode()).digest()[:8])
+            same = (ij == mj) and (iback == mback)
+            if not same:
+                corr.append((i, c, im, mo, ctx, "encode/round-trip observation differs from the model"))
+            # the properties themselves
+            bad = None
+            if prop in ("C06", "C08") or True:
+                if not i_ok or "__DUPLICATE_KEYS__" in ij or ij.startswith("UNPARSEABLE"):
+                    if prop in ("C06", "C07"):
+                        bad = "encoding is not valid JSON (%s)" % (iv if not i_ok else "duplicate keys")
+                elif prop == "C06" and iback != orig:
+                    bad = "decoding the encoding does not return the value"
+                elif prop == "C07" and not (same and mkv.get("valid") == "1"):
+                    if ij == mj and mkv.get("valid") != "1":
+                        bad = "encoded JSON does not validate against the schema"
+            if bad:
+                propm.append((i, c, im, mo, ctx, bad))
+        else:
+            kinds["decode"] = kinds.get("decode", 0) + 1
+            exp = (re.search(r"#exp=(\S+)", c) or [None, "?"])[1]
+            kinds["decode:" + exp.split(":")[0]] = kinds.get("decode:" + exp.split(":")[0], 0) + 1
+            i_err = iv.startswith("Err(")
+            m_err = mv.startswith("Err") 
+            if i_err != m_err:
+                corr.append((i, c, im, mo, ctx, "decode outcome differs from the model"))
+            elif i_err:
+                mk = re.match(r"Err\((.*)\)$", mv)
+                if mk and not err_mentions(iv, mk.group(1)):
+                    corr.append((i, c, im, mo, ctx, "error does not mention the key the model names"))
+            else:
+                if canon_dump(iv) != canon_dump(mv) or canon_json_hex(ikv.get("reenc", "")) != canon_json_hex(mkv.get("reenc", "")):
+                    corr.append((i, c, im, mo, ctx, "decoded value / re-encoding differs from the model"))
+            distinct.add(hashlib.sha256((c + iv[:40]).encode()).digest()[:8])
+            if prop == "C08":
+                bad = None
+                if exp == "valid":
+                    if mkv.get("valid") != "1":
+                        bad = "reference disagreement: the document generator says valid, the Coq validator says invalid"
+                    elif i_err:
+                        bad = "a valid document is rejected"
+                    elif "__DUPLICATE_KEYS__" in canon_json_hex(ikv.get("reenc", "")) or ikv.get("reenc") == "MarshalErr":
+                        bad = "re-encoding a decoded valid document is not valid JSON"
+                    elif canon_json_hex(ikv.get("reenc", "")) != canon_json_hex(mkv.get("reenc", "")):
+                        bad = "re-encoding differs from the kept part of the document"
+                else:
+                    k = exp.split(":", 1)[1]
+                    if not i_err:
+                        bad = "a document with a %s is accepted" % exp.split(":")[0]
+                    elif not err_mentions(iv, k):
+                        bad = "the error does not name the property"
+                if bad:
+                    propm.append((i, c, im, mo, ctx, bad))
+    propm.sort(key=lambda t: len(t[1]))
+
+    def json_sig(ctx):
+        # D28: an allOf $ref member that itself declares additionalProperties
+        for l in ctx:
+            if l.startswith("J ") and re.search(r"E:o\([^()]*(\([^()]*\)[^()]*)*\|[^-)]", l):
+                return "embedded_member_with_additional_properties"
+        return None
+    rest = []
+    for t in propm:
+        sg = json_sig(t[4])
+        if sg and any(k["signature"] == sg for k in run.known):
+            run.known_hit(sg, t[1][:160])
+        else:
+            rest.append(t)
+    propm = rest
+    corr = [t for t in corr if not (json_sig(t[4]) and any(k["signature"] == json_sig(t[4]) for k in run.known))]
+    for (i, c, im, mo, ctx, why) in propm[:3]:
+        run.violation({"property": prop, "case": c, "context": ctx, "observed_impl": im[:2000], "model": mo[:2000], "broken": why}, c)
+    if corr and not propm:
+        i, c, im, mo, ctx, why = sorted(corr, key=lambda t: len(t[1]))[0]
+        run.violation({"property": prop, "case": c, "context": ctx, "impl": im[:2000], "model": mo[:2000], "input": None,
+                       "broken": "correspondence impl=model for the JSON codec: " + why, "mismatching_cases": len(corr)}, c,
+                      note="no-failing-input-found")
+    eidx = [i for i, c in enumerate(cases) if c[:2] in ("E ", "U ")]
+    pick = [eidx[k] for k in sorted({0, len(eidx) // 2, len(eidx) - 1})] if eidx else []
+    run.coverage.update({
+        "evaluations": n_eval, "distinct_nontrivial": len(distinct),
+        "correspondence_mismatches": len(corr), "property_mismatches": len(propm),
+        "programs": meta.get("packages_ok", 0), "packages_not_built": nbad,
+        "input_distribution": dict({k: v for k, v in meta.items() if k != "packages_bad"}, case_kinds=kinds),
+        "rule": "seeded schemas of the JSON dialect (objects with required/optional/nullable properties of every primitive kind, arrays, nested "
+                "inline and $ref objects, additionalProperties true/schema, allOf with $ref (embedded) and inline members in every order incl. "
+                "all-optional embedded members, any), 8 types per package; E cases: boundary/random values (strings needing escapes, non-BMP, "
+                "extreme ints/floats, zoned times, unset/null combinations, map keys with spaces and quotes) are marshalled by the compiled package, "
+                "checked with json.Valid, unmarshalled again and dumped; U cases: documents generated FROM the schema (optional subsets, null where "
+                "allowed, extra keys, shuffled key order) and their single-fault mutants (one required key dropped; one value's JSON type swapped) "
+                "are unmarshalled, dumped and re-marshalled; everything is compared with the extracted Coq codec model and validator; non-trivial = "
+                "produced a JSON value / decoded value; distinct by (case, observation)",
+        "samples": [{"case": cases[i][:400], "impl": impl[i][:400], "model": model[i][:400]} for i in pick],
+        "trusted_base": TRUSTED_COMMON + [
+            "modelled, not verified: the Go semantics of the emitted MarshalJSON/UnmarshalJSON code (Model/Json.v), encoding/json on leaf types "
+            "(strings, numbers, booleans, RawMessage, time via layout) as oracles; numbers are compared numerically, objects up to key order",
+            "the reflective value builder/dumper of the driver and the OCaml JSON reader/printer in driver.ml"],
+    })
+    run.log("cases: %d evaluated; correspondence mismatches %d; property mismatches %d" % (n_eval, len(corr), len(propm)))
+    if not proof_ok:
+        run.violation(dict(getattr(run, "coq_failure", {}), input=None), None, note="no-failing-input-found")
+    return run.finish()
+
+
+def check_C06(run, replay=None):
+    return check_json_family(run, "C06", replay)
+
+
+def check_C07(run, replay=None):
+    return check_json_family(run, "C07", replay)
+
+
+def check_C08(run, replay=None):
+    return check_json_family(run, "C08", replay)
+
+
 def check_C04(run, replay=None):
     return check_router_family(
         run, replay,
@@ -805,7 +1002,7 @@ def check_C17(run, replay=None):
         trusted=ROUTER_TRUSTED + ["http.CanonicalHeaderKey modelled for ASCII (Model/Serve.v canon_key), tied by these cases"])
 
 
-CHECKS = {"C19": check_C19, "C13": check_C13, "C03": check_C03, "C04": check_C04, "C05": check_C05, "C11": check_C11, "C16": check_C16, "C17": check_C17}
+CHECKS = {"C19": check_C19, "C13": check_C13, "C03": check_C03, "C04": check_C04, "C05": check_C05, "C06": check_C06, "C07": check_C07, "C08": check_C08, "C11": check_C11, "C16": check_C16, "C17": check_C17}
 
 
 def setup():
